@@ -261,6 +261,28 @@ fn walk_cbor(b: &[u8], pos: &mut usize, path: &str, out: &mut Vec<Hdr>, depth: u
     Some(())
 }
 
+/// path of the first array header that declares at least 2^20 elements and more than the input holds
+fn huge_array_path(input: &[u8]) -> Option<String> {
+    let mut hdrs = Vec::new();
+    let mut pos = 0;
+    let _ = walk_cbor(input, &mut pos, "", &mut hdrs, 0);
+    for h in hdrs {
+        if h.major != 4 {
+            continue;
+        }
+        let ai = input[h.pos] & 0x1f;
+        let val = match ai {
+            26 => u64::from(u32::from_be_bytes(input.get(h.pos + 1..h.pos + 5)?.try_into().ok()?)),
+            27 => u64::from_be_bytes(input.get(h.pos + 1..h.pos + 9)?.try_into().ok()?),
+            _ => 0,
+        };
+        if val >= (1 << 20) && val > input.len() as u64 {
+            return Some(h.path);
+        }
+    }
+    None
+}
+
 fn cbor_header(major: u8, val: u64) -> Vec<u8> {
     let m = major << 5;
     if val < 24 {
@@ -313,7 +335,7 @@ fn is_json(d: usize) -> bool {
 
 /// Fixed regression corpus at the start of the index space (independent of the seed): the inputs
 /// behind every recorded finding and every repaired defect, so that each is exercised on every run.
-pub const CORPUS: u64 = 16;
+pub const CORPUS: u64 = 17;
 
 fn corpus_case(k: u64) -> Case {
     let known_paths: [(usize, &str); 4] = [(4, "/9"), (2, "/3[]/transports"), (3, "/1/transports"), (0, "/5[]/transports")];
@@ -371,6 +393,12 @@ fn corpus_case(k: u64) -> Case {
         }
         13 => c(6, "9-byte array header declaring 2^40 elements", vec![0x9b, 0, 0, 1, 0, 0, 0, 0, 0], vec![]),
         14 => c(6, "array header declaring 2^24 elements", vec![0x9a, 1, 0, 0, 0], vec![]),
+        15 => {
+            // a binary member presented as an array of integers: 5000 real elements, 2^40 declared
+            let mut v = vec![0x9b, 0, 0, 1, 0, 0, 0, 0, 0];
+            v.extend(std::iter::repeat(0x07u8).take(5000));
+            c(6, "array of 5000 integers declaring 2^40 elements", v, vec![])
+        }
         _ => c(10, "36-byte authenticator data", vec![0; 36], vec![]),
     }
 }
@@ -421,7 +449,7 @@ fn gen_case(seed: u64, idx: u64) -> Case {
                 1 => ("len+1", 1),  // patched below
                 2 => ("len-1", 2),  // patched below
                 3 => ("2^16-1", 0xffff),
-                4 => ("2^24", 1 << 24),
+                4 => ("huge", 1 << 24),
                 5 => ("huge", 0xffff_ffff),
                 6 => ("huge", 1 << 40),
                 7 => ("huge", u64::MAX),
@@ -451,6 +479,38 @@ fn gen_case(seed: u64, idx: u64) -> Case {
                 input.truncate(keep);
             }
             mutation = format!("len-rewrite({} at {} -> {label})", major_name(h.major), if h.path.is_empty() { "top" } else { &h.path });
+        }
+    } else if choice < 74 && is_cbor(decoder) {
+        // a byte-string member presented as an array of integers (the Bytes decoder accepts both),
+        // with N real elements and an honest or inflated declared length
+        let mut hdrs = Vec::new();
+        let mut pos = 0;
+        let _ = walk_cbor(&input, &mut pos, "", &mut hdrs, 0);
+        let bytes_hdrs: Vec<&Hdr> = hdrs.iter().filter(|h| h.major == 2).collect();
+        if bytes_hdrs.is_empty() {
+            mutation = "valid".into();
+        } else {
+            let h = bytes_hdrs[rng.below(bytes_hdrs.len())].clone();
+            // length of the byte string
+            let ai = input[h.pos] & 0x1f;
+            let cur = match ai {
+                0..=23 => usize::from(ai),
+                24 => usize::from(input[h.pos + 1]),
+                25 => usize::from(u16::from_be_bytes([input[h.pos + 1], input[h.pos + 2]])),
+                _ => 0,
+            };
+            let n = *rng.pick(&[3usize, 100, 4096, 4097, 5000, 20_000]);
+            let (label, declared): (&str, u64) = match rng.below(4) {
+                0 => ("honest", n as u64),
+                1 => ("huge", 1 << 31),
+                2 => ("huge", 1 << 40),
+                _ => ("huge", u64::MAX),
+            };
+            let mut arr = cbor_header(4, declared);
+            arr.extend(std::iter::repeat(*rng.pick(&[0x00u8, 0x17, 0x01])).take(n));
+            let end = (h.pos + h.hdr_len + cur).min(input.len());
+            input.splice(h.pos..end, arr);
+            mutation = format!("bytes-as-int-array({} elements, declared {label}, at {})", n, if h.path.is_empty() { "top" } else { &h.path });
         }
     } else if choice < 76 && is_cbor(decoder) {
         // swap the major type of a header
@@ -520,6 +580,12 @@ fn gen_case(seed: u64, idx: u64) -> Case {
         input = unit.repeat(n / unit.len()).into_bytes();
         mutation = format!("repeat({} x{})", unit.escape_default(), n / unit.len());
     }
+    // Name the cause by what the input looks like, not by how it was produced: a random byte flip can
+    // create the same "list declares far more elements than the input holds" shape as a length rewrite.
+    let mutation = match (is_cbor(decoder), huge_array_path(&input)) {
+        (true, Some(p)) => format!("len-rewrite(array at {} -> huge)", if p.is_empty() { "top" } else { &p }),
+        _ => mutation,
+    };
     // decoder-specific extras
     match decoder {
         19 if choice % 5 == 0 && input.len() >= 7 => {
@@ -653,7 +719,9 @@ fn decode(c: &Case) -> bool {
 
 pub fn iso_case(args: &Args, idx: u64) -> CaseOut {
     let c = gen_case(args.seed, idx);
-    let ok = decode(&c);
+    // only the decoder is measured: generating the input (e.g. running ceremonies to obtain a
+    // credential to mutate) must not be charged to the case
+    let (ok, cpu, max_req, peak) = crate::worker::measure(|| decode(&c));
     let mclass = c.mutation.split('(').next().unwrap_or("").to_string();
     let nontrivial = ok || !c.mutation.starts_with("random");
     CaseOut {
@@ -664,6 +732,7 @@ pub fn iso_case(args: &Args, idx: u64) -> CaseOut {
         violations: vec![],
         sample: Some((format!("{}/{}", DECODERS[c.decoder], mclass), json!({"decoder": DECODERS[c.decoder], "mutation": c.mutation, "input_len": c.input.len(), "input": hex_short(&c.input), "result": if ok {"value"} else {"error"}}))),
         counters: vec![(format!("decoder:{}", DECODERS[c.decoder]), 1), (format!("mutation:{mclass}"), 1)],
+        measured: Some((cpu, max_req, peak)),
     }
 }
 
@@ -691,7 +760,7 @@ pub fn run(args: &Args) -> Report {
                 continue; // need key generation / point validation: too slow to interpret
             }
             let c = gen_case(args.seed, idx);
-            if c.input.len() > 2048 || c.mutation.contains("huge") || c.mutation.contains("2^24") {
+            if c.input.len() > 2048 || c.mutation.contains("huge") {
                 continue;
             }
             rep.eval();
